@@ -514,7 +514,9 @@ package ggql
 //@ -- ------------------------------------------------------------------ data-structure invariants of parsed documents and loaded schemas
 //@ -- (trusted: established by the parsers; every use is listed under assumptions in the evidence)
 //@ eleminv []Selection: v != nil && ptrval(v) != 0 && (is(v, *Field) || is(v, *Inline) || is(v, *FragRef))
-//@ eleminv []*DirectiveUse: v != nil
+//@ -- a directive use keeps its argument values under their own names (trusted: the parser stores du.Args[av.Arg] = av)
+//@ spec argsKeyed(du *DirectiveUse) bool = forall k string {du.Args[k]} :: has(du.Args, k) ==> du.Args[k] != nil && du.Args[k].Arg == k
+//@ eleminv []*DirectiveUse: v != nil && argsKeyed(v)
 //@ eleminv []*ArgValue: v != nil
 //@ eleminv []*VarDef: v != nil
 //@ fieldinv DirectiveUse.Directive: v != nil && dirName(v.Name())
@@ -747,6 +749,7 @@ package ggql
 //@   ensures[err-fresh] aserr(err) != nil ==> fresh(aserr(err))
 //@   ensures[conforms] err == nil ==> conformsIn(res, recv)
 //@   ensures[nonnil] err == nil && v != nil ==> res != nil
+//@   ensures[null-kept] v == nil && err == nil ==> res == nil
 //@   assigns fresh
 
 //@ spec nonNullArg(fd *FieldDef, k string) bool = fd != nil && fd.args.dict != nil && has(fd.args.dict, k) && is(fd.args.dict[k].Type, *NonNull)
@@ -818,6 +821,7 @@ package ggql
 //@   ensures[non-null-present] is(v, map[string]interface{}) && t.meta == nil && err == nil ==> (forall k string {asMap(v)[k]} :: has(t.fields.dict, k) && is(inFld(t, k).Type, *NonNull) ==> asMap(v)[k] != nil)
 //@   ensures[coerced] is(v, map[string]interface{}) && t.meta == nil && err == nil ==> (forall k string {asMap(v)[k]} :: has(t.fields.dict, k) && old(asMap(v)[k]) != nil ==> conformsIn(asMap(v)[k], inFld(t, k).Type))
 //@   ensures[same-map] is(v, map[string]interface{}) && t.meta == nil && err == nil ==> res == v
+//@   ensures[nil] v == nil ==> res == nil && err == nil
 //@   ensures[err-fresh] aserr(err) != nil ==> fresh(aserr(err))
 //@   assigns fresh, v
 //@   loop 0: invariant[declared] forall k string {seen(0, k)} :: seen(0, k) ==> inFld(t, k) != nil
